@@ -388,6 +388,7 @@ class Export:
     ir_model: Any = None
     error: Optional[str] = None
     seconds: float = 0.0
+    extra: dict = field(default_factory=dict)
 
     @property
     def ok(self) -> bool:
@@ -431,6 +432,36 @@ def clear_cache() -> None:
 def chunks(plan: list, n: int):
     for i in range(0, len(plan), n):
         yield plan[i:i + n]
+
+
+def export_in_chunks(plan: list, max_models: int = 300, max_bytes: int = 600_000_000,
+                     deadline: Optional[float] = None, after=None):
+    """Export `plan` = [(desc, cfg)…] lazily and yield lists of Export objects (failed ones included),
+    closing a chunk after `max_models` models or `max_bytes` of serialized protos, so that the caller
+    can check and drop them before the next chunk is produced (bounded memory).  Stops at `deadline`
+    (time.time() value).  `after(ex)` is called right after each export."""
+    i = 0
+    while i < len(plan):
+        if deadline is not None and time.time() > deadline:
+            return
+        out: list = []
+        size = 0
+        while i < len(plan) and len(out) < max_models and size < max_bytes:
+            if deadline is not None and time.time() > deadline:
+                break
+            d, cfg = plan[i]
+            i += 1
+            ex = export(d, cfg)
+            if after is not None:
+                after(ex)
+            if ex.ok:
+                try:
+                    size += ex.proto.ByteSize()
+                except Exception:
+                    pass
+            out.append(ex)
+        yield out
+        clear_cache()
 
 
 def cleanup() -> None:
